@@ -238,6 +238,13 @@ func c08Projects(ctx *Ctx, r *Rng) {
 	var cutProjects []Project
 	buildCorrespondenceFixtureProjects(ctx)
 	encProjects := c08Encodings(ctx)
+	// the inputs of every stated case (all properties) also go through the composed multi-file model
+	for _, c := range statedCases {
+		encProjects = append(encProjects, casesProject(c.a))
+		if c.b != nil {
+			encProjects = append(encProjects, casesProject(c.b))
+		}
+	}
 	defer func() {
 		// the catalog-construction model on the forests of multi-file projects (with single faults in some)
 		buildCorrespondenceProjects(ctx, cutProjects, "documents cut into included files (plain and with a line mutant in one file)")
